@@ -7,6 +7,7 @@ import (
 	"errors"
 	"fmt"
 	"io"
+	"net"
 	"os"
 	"os/exec"
 	"path/filepath"
@@ -31,7 +32,38 @@ type killCase struct {
 	Mux       bool   `json:"mux"`
 }
 
-func init() { families["kill"] = runKill }
+func init() {
+	families["kill"] = runKill
+	families["kill-launcher"] = runKillLauncher
+}
+
+// runKillLauncher (internal): start the plugin described by the single case, print where it is, and stay until
+// stdin closes -- then leave WITHOUT touching the plugin.  Lets the kill family reattach to a plugin that is somebody
+// else's child.
+func runKillLauncher(o opts) error {
+	var cs []killCase
+	if err := hk.LoadCases(o.cases, &cs); err != nil || len(cs) != 1 {
+		return fmt.Errorf("kill-launcher: one case expected")
+	}
+	c := cs[0]
+	pc := map[string]interface{}{"marker": os.Getenv("KILL_MARKER")}
+	switch c.Behaviour {
+	case "delay":
+		pc["shutdown"], pc["shutdown_ms"] = "delay", 300
+	case "ignore":
+		pc["shutdown"] = "ignore"
+	}
+	cl := plugin.NewClient(vpClientConfig(vpOpts{Proto: c.Proto, Mux: c.Mux, Plugin: pc}))
+	if _, err := cl.Client(); err != nil {
+		return err
+	}
+	rc := cl.ReattachConfig()
+	fmt.Printf("%d %s %s %s\n", rc.Pid, rc.Addr.Network(), rc.Addr.String(), rc.Protocol)
+	os.Stdout.Sync()
+	io.Copy(io.Discard, os.Stdin)
+	os.Exit(0)
+	return nil
+}
 
 // launchfails / runnerfails: Start was called but no process ever ran (exec error; a custom runner whose Start fails):
 // no process, but a runner is recorded
@@ -56,6 +88,10 @@ func genKill(o opts) []killCase {
 		killCase{Proto: "grpc", Behaviour: "delay", Launch: "cmd", Pattern: "cleanup"},
 		killCase{Proto: "grpc", Behaviour: "exit", Launch: "reattach", Pattern: "single"},
 		killCase{Proto: "netrpc", Behaviour: "ignore", Launch: "reattach", Pattern: "single"},
+		// the plugin was started by ANOTHER process (it is not a child of the host that reattaches and kills)
+		killCase{Proto: "grpc", Behaviour: "ignore", Launch: "reattach-foreign", Pattern: "single"},
+		killCase{Proto: "netrpc", Behaviour: "delay", Launch: "reattach-foreign", Pattern: "single"},
+		killCase{Proto: "netrpc", Behaviour: "exit", Launch: "reattach-foreign", Pattern: "repeat3"},
 		killCase{Proto: "grpc", Behaviour: "exit", Launch: "cmd", Pattern: "single", Mux: true},
 		killCase{Proto: "grpc", Behaviour: "frozen", Launch: "cmd", Pattern: "concurrent4", Mux: true},
 	)
@@ -91,6 +127,9 @@ func runOneKill(c killCase, tmpBase string, idx int) (sx.V, sx.V) {
 		pc["shutdown"] = "ignore"
 	case "badhandshake":
 		pc["pre_output"] = "this is a banner, not a handshake\n" // Start fails on the first line; the real line follows it
+	}
+	if c.Launch == "reattach-foreign" {
+		return runForeignKill(c, in, marker)
 	}
 	cfg := vpClientConfig(vpOpts{Proto: c.Proto, Mux: c.Mux, Plugin: pc, Managed: c.Pattern == "cleanup"})
 	switch c.Behaviour {
@@ -268,3 +307,93 @@ func (failingRunner) ID() string                                       { return 
 func (failingRunner) Diagnose(context.Context) string                  { return "" }
 func (failingRunner) PluginToHost(n, a string) (string, string, error) { return n, a, nil }
 func (failingRunner) HostToPlugin(n, a string) (string, string, error) { return n, a, nil }
+
+// runForeignKill: the plugin is the child of a launcher process; this process only reattaches and kills.
+func runForeignKill(c killCase, in sx.V, marker string) (sx.V, sx.V) {
+	fail := sx.L{sx.I(0), sx.I(0), sx.I(0), sx.I(0), sx.I(0)}
+	self, _ := os.Executable()
+	cf, _ := os.CreateTemp("", "hx-kl-*.json")
+	fmt.Fprintf(cf, `[{"proto":%q,"behaviour":%q,"launch":"cmd","pattern":"single","mux":false}]`, c.Proto, c.Behaviour)
+	cf.Close()
+	defer os.Remove(cf.Name())
+	lc := exec.Command(self, "kill-launcher", "-cases", cf.Name(), "-out", os.TempDir())
+	lc.Env = append(os.Environ(), "KILL_MARKER="+marker)
+	stdin, _ := lc.StdinPipe()
+	stdout, _ := lc.StdoutPipe()
+	if err := lc.Start(); err != nil {
+		return in, fail
+	}
+	defer func() { stdin.Close(); lc.Process.Kill(); lc.Wait() }()
+	var pid int
+	var network, addr, proto string
+	lineCh := make(chan bool, 1)
+	go func() {
+		_, err := fmt.Fscanf(stdout, "%d %s %s %s\n", &pid, &network, &addr, &proto)
+		lineCh <- err == nil
+	}()
+	select {
+	case ok := <-lineCh:
+		if !ok {
+			return in, fail
+		}
+	case <-time.After(15 * time.Second):
+		return in, fail
+	}
+	defer func() {
+		if pid > 0 && procAlive(pid) {
+			syscall.Kill(pid, syscall.SIGKILL)
+		}
+		os.Remove(marker)
+	}()
+	var na net.Addr
+	if network == "unix" {
+		na, _ = net.ResolveUnixAddr("unix", addr)
+	} else {
+		na, _ = net.ResolveTCPAddr("tcp", addr)
+	}
+	base := vpClientConfig(vpOpts{Proto: c.Proto})
+	target := plugin.NewClient(&plugin.ClientConfig{HandshakeConfig: base.HandshakeConfig, Plugins: base.Plugins,
+		Reattach: &plugin.ReattachConfig{Protocol: plugin.Protocol(proto), ProtocolVersion: 1, Addr: na, Pid: pid}, Logger: hk.QuietLogger()})
+	started := make(chan error, 1)
+	go func() { _, err := target.Client(); started <- err }()
+	select {
+	case err := <-started:
+		if err != nil {
+			return in, fail
+		}
+	case <-time.After(15 * time.Second):
+		return in, fail
+	}
+	okAll := true
+	kills := 1
+	if c.Pattern == "repeat3" {
+		kills = 3
+	}
+	for k := 0; k < kills; k++ {
+		done := make(chan bool, 1)
+		go func() {
+			defer func() {
+				if r := recover(); r != nil {
+					done <- false
+				}
+			}()
+			target.Kill()
+			done <- true
+		}()
+		select {
+		case ok := <-done:
+			if !ok || procAlive(pid) {
+				okAll = false
+			}
+		case <-time.After(9 * time.Second):
+			okAll = false
+		}
+	}
+	exited := false
+	within(3*time.Second, func() { exited = target.Exited() })
+	gone := !procAlive(pid)
+	_, merr := os.Stat(marker)
+	forced := false
+	within(3*time.Second, func() { forced = plugin.VerifKilled(target) && merr != nil })
+	return in, sx.L{sx.Bool(okAll), sx.Bool(exited), sx.Bool(gone), sx.Bool(merr == nil), sx.Bool(forced)}
+}
